@@ -100,11 +100,13 @@ func c05RunConc(t rt.TB, c c05Conc) {
 		sub := row.Build(obss).Subscribe(rec)
 		var wg sync.WaitGroup
 		start := make(chan struct{})
+		bar := rt.NewBarrier(len(srcs))
 		for i := range srcs {
 			wg.Add(1)
 			go func(i int) {
 				defer wg.Done()
 				<-start
+				bar.Wait()
 				for _, e := range c.Scripts[i] {
 					srcs[i].Emit(e)
 				}
